@@ -3,7 +3,7 @@ import OdakProofs.Lemmas.PropagateLemmas
 import OdakModel.Propagator
 import OdakProofs.Lemmas.GenPropagator
 import OdakProofs.Lemmas.GenPropagatorObject5
-import OdakProofs.Lemmas.PropagatorObjectInst5
+import OdakProofs.Lemmas.PropagatorObjectInst6
 
 /-! # C06 – the propagator forward model is history-independent and matches its documented model -/
 namespace Odak
@@ -414,6 +414,38 @@ theorem C06_gen_object_documented_model_every_call_list (a : PropArgs (Ten ℝ) 
   refine ⟨s1, ys, s2, y, r1, r2, r3, ?_⟩
   rw [r4, gen_customT_eq, C06_call_is_documented_model,
     toGrid_pRefAp o (by rw [e1]; exact hres) (by rw [e11]; exact hrf) pre ap (fun x hx => (hpre x hx).2)]
+
+/-- the same statement read as "call `k` of every call list": every list of good calls on the constructed propagator runs (no call raises),
+    and whenever call number `k` is a forward call on an `[h, w]` field, its value is the documented model with the kernel of (channel, plane)
+    and the aperture the `set_aperture` calls among the FIRST `k` calls left - whatever the other calls before and after it are -/
+theorem C06_gen_object_documented_model_call_k (a : PropArgs (Ten ℝ) ℝ) (hp0 : Heap (Ten ℝ)) (o : PropObj (Ten ℝ) ℝ) (h' : Heap (Ten ℝ))
+    (hi : pInit propOpsGrid a hp0 = some (o, h')) (hp : ∀ p, a.laser_channel_power = some p → p < hp0.size)
+    {h w : Nat} (hres : a.resolution = [(h : Int), (w : Int)]) (hw5 : 5 ≤ w) (hrf : a.rf = 1)
+    (hty : a.propagator_type = "forward" ∨ a.propagator_type = "back and forth")
+    (hme : a.method = "conventional" ∨ a.method = "multi-color")
+    (kern : ℝ → ℝ → CGrid ℝ (2 * h) (2 * w))
+    (hk : ∀ lam z, propagationKernelT a.propagation_type (2 * h) (2 * w) a.pixel_pitch lam z (a.aperture_samples.getD 0 0).toNat
+      (a.aperture_samples.getD 1 0).toNat (a.aperture_samples.getD 2 0).toNat (a.aperture_samples.getD 3 0).toNat = some (kern lam z)) :
+    ∃ dists ap, h'.get o.distances = some dists ∧ h'.get o.aperture = some ap ∧
+      ∀ (xs : List (PCall (Ten ℝ))), (∀ x ∈ xs, x.good o h' ∧ x.apShape h w) →
+        ∃ s ys, runSteps (pStep propOpsGrid) (o.toSelf, h') xs = some (s, ys) ∧
+          ∀ (k : Nat) (u : Ten ℝ) (c d : Nat), xs[k]? = some (.forward u (c : Int) (d : Int)) → u.shape = [h, w] → c < a.wavelengths.length →
+            (d : Int) < o.number_of_depth_layers →
+            ∃ y, ys[k]? = some y ∧ y.vals = [Ten.ofGrid (cropGrid (customDocumented (padGrid (Ten.toGrid h w u)) (objKernelGrid o kern dists c d)
+              ((xs.take k).foldl apGridStep (Ten.toGrid (2 * h) (2 * w) ap))))] := by
+  obtain ⟨e1, -, e3, e4, -, -, e7, -, -, -, e11, -⟩ := pInit_fields propOpsGrid a hp0 o h' hi
+  have hk' : ∀ lam z, propagationKernelT o.propagation_type (2 * h) (2 * w) o.pixel_pitch lam z (o.samp 0) (o.samp 1) (o.samp 2) (o.samp 3) = some (kern lam z) := by
+    intro lam z
+    simp only [PropObj.samp, e3, e4, e7]
+    exact hk lam z
+  obtain ⟨dists, ap, hd, ha, hall⟩ := propagator_grid_call_k a hp0 o h' hi hp hres hty hme kern hk'
+  refine ⟨dists, ap, hd, ha, fun xs hxs => ?_⟩
+  obtain ⟨s, ys, erun, hvals⟩ := hall xs (fun x hx => (hxs x hx).1)
+  refine ⟨s, ys, erun, fun k u c d hx hu hc _ => ?_⟩
+  obtain ⟨y, ey, ev⟩ := hvals k u c d hx hu hc
+  refine ⟨y, ey, ?_⟩
+  rw [ev, gen_customT_eq, C06_call_is_documented_model,
+    toGrid_pRefAp o (by rw [e1]; exact hres) (by rw [e11]; exact hrf) (xs.take k) ap (fun x hx => (hxs x (List.mem_of_mem_take hx)).2)]
 
 /-- **the same for every reconstruction**: after ANY list `pre` of calls, `reconstruct(phases, amplitude, no_grad, get_complex)` returns a buffer
     `V` whose slot `[frame f, plane d, channel c]` is - for every `f`, `d`, `c` in range -
